@@ -48,7 +48,7 @@ def char_boundaries(text, encoding, blob):
 class C17(Check):
     ID = 'C17'
     LEVEL = 'exploration'
-    BUDGET = {'quick': 25, 'thorough': 240}
+    BUDGET = {'quick': 30, 'thorough': 240}      # (the exhaustive box is 'as much as fits'; the required classes come first)
     RULE = ('case = (encoding, list of strings, cut set over the encoded bytes, empty-chunk flag); quick: every cut set of every '
             'encoded stream <= 9 bytes built from 0..3 strings of {"", a, é, €, 😀, e+combining acute, NUL, ab}, every single cut of '
             'random texts (ASCII / Latin-1 / BMP / astral / combining alphabets, up to 400 chars), random cut sets with empty chunks; '
@@ -123,7 +123,7 @@ class C17(Check):
                     yield self._mk(enc, strs, (a,))
 
     def _rand(self, rng, tier):
-        nrand = 5000 if tier == 'quick' else 10 ** 7
+        nrand = 2000 if tier == 'quick' else 10 ** 7
         for k in range(nrand):
             enc = rng.choice(ENCODINGS)
             if k % 250 == 125:
